@@ -39,8 +39,6 @@ pub open spec fn set_bal(w: World, a: Address, v: int) -> World {
 pub open spec fn set_supply(w: World, v: int) -> World {
     World { instance: w.instance.insert(supply_key(), SV::I128(v as i128)), ..w }
 }
-pub open spec fn w_auth(w: World, a: Address) -> World { World { auths: w.auths.insert(a), ..w } }
-pub open spec fn w_event(w: World, ev: SV) -> World { World { events: w.events.push(ev), ..w } }
 
 /// the whole successor state of `Base::update` (touched keys and frame)
 pub open spec fn update_post(w: World, from: Option<Address>, to: Option<Address>, amount: int) -> World {
